@@ -2374,6 +2374,13 @@ class VM:
 
         key_str = to_string(key) if not isinstance(key, str) else key
 
+        if isinstance(obj, JSFunction):
+            # The prototype property of a function is an ordinary writable
+            # property: `new F` and `instanceof F` read it at the time of use.
+            if key_str == "prototype":
+                obj._prototype = value
+            return
+
         if isinstance(obj, JSTypedArray):
             try:
                 idx = int(key_str)
@@ -2669,9 +2676,13 @@ class VM:
         if isinstance(constructor, JSFunction):
             # Create new object
             obj = JSObject()
-            # Set prototype from constructor's prototype property
-            if hasattr(constructor, "_prototype"):
-                obj._prototype = constructor._prototype
+            # Set prototype from constructor's prototype property (when it is
+            # not an object, instances inherit from Object.prototype)
+            proto = getattr(constructor, "_prototype", None)
+            if not isinstance(proto, JSObject):
+                object_constructor = self.globals.get("Object")
+                proto = getattr(object_constructor, "_prototype", None)
+            obj._prototype = proto
             # Call constructor with new object as 'this'
             # Mark this as a constructor call so RETURN knows to return the object
             self._invoke_js_function(
